@@ -79,6 +79,14 @@ Theorem C10_max_single_attempt_refuted :
     all_done (snd c) = true /\ fst c 7%N <> maxZ 0 (concat (map (recorded_total 7%N) ts)).
 Proof. exact max_single_cas_refuted. Qed.
 
+(* a retry that reloads into another register (a shadowed variable) never refreshes the value the swap expects: after a
+   lost swap the call spins for ever — it never returns, however long it is run *)
+Theorem C10_stale_retry_never_returns :
+  let c := run (fun _ => 0, stale_retry_threads) stale_retry_prefix in
+  all_done (snd c) = false /\
+  forall n, all_done (snd (run c (concat (repeat (repeat 0%nat 6) n)))) = false.
+Proof. exact stale_retry_spins. Qed.
+
 (* ---- every call returns what it returns when run alone ----
    Goroutines that share only pools (any number, any schedule, any choice of which pooled object a Get receives,
    including a new one): under the pool discipline (C09: what Put stores is observationally what New builds) and if
@@ -154,6 +162,7 @@ Print Assumptions C10_counters_exact_always.
 Print Assumptions C10_max_load_compare_store_refuted.
 Print Assumptions C10_min_load_compare_store_refuted.
 Print Assumptions C10_max_single_attempt_refuted.
+Print Assumptions C10_stale_retry_never_returns.
 Print Assumptions C10_results_sequential.
 Print Assumptions C10_footprint_race_free.
 Print Assumptions C10_common_lock_orders.
